@@ -343,6 +343,9 @@ func namedOfPtr(t types.Type) string {
 // len(entry.updates) == 0 { L = append(L, entry.line) } ... for _, key := range L { delete(logs, key) }
 func expiryDeletesEmpty(p *an.Program, fn *ssa.Function, st *ssa.Store) bool {
 	fi := p.Info(fn)
+	if expiryDeletesInPlace(p, fn, st) {
+		return true
+	}
 	// (1) the block of the store ends in a branch on len(new updates) == 0
 	b := st.Block()
 	iff, ok := b.Instrs[len(b.Instrs)-1].(*ssa.If)
@@ -442,6 +445,66 @@ func logDeletes(p *an.Program, fn *ssa.Function) []logDelete {
 		}
 	}
 	return out
+}
+
+// expiryDeletesInPlace recognises the form that deletes the emptied entry right away, inside the range over the map:
+// entry.updates = entry.updates[k:]; if len(entry.updates) == 0 (in any spelling) { delete(logs, key of this entry) }.
+// The branch after the reslice tests the length of the list; on the way to the deletion the length is 0 (BOUND), on
+// the other way it is at least 1, and the deleted key is the key (or the line) of the entry of this iteration.
+func expiryDeletesInPlace(p *an.Program, fn *ssa.Function, st *ssa.Store) bool {
+	fi := p.Info(fn)
+	b := st.Block()
+	iff, ok := b.Instrs[len(b.Instrs)-1].(*ssa.If)
+	if !ok || len(b.Succs) != 2 {
+		return false
+	}
+	var lt *an.Term
+	fi.Term(iff.Cond).Walk(func(t *an.Term) {
+		if t.K == an.KLen && strings.Contains(t.Key(), "updates") {
+			lt = t
+		}
+	})
+	if lt == nil {
+		return false
+	}
+	// the entry whose list was resliced
+	fa, ok := st.Addr.(*ssa.FieldAddr)
+	if !ok {
+		return false
+	}
+	entryT := fi.Term(fa.X)
+	lf := p.LockFlowOf(fn)
+	for _, d := range logDeletes(p, fn) {
+		if !an.Held(lf.StateAt(d.at, "EventLogger.mu")) || !an.Held(lf.StateAt(st, "EventLogger.mu")) {
+			continue
+		}
+		// which branch leads to the deletion
+		var toDel, other *ssa.BasicBlock
+		for k, sx := range b.Succs {
+			if sx == d.at.Block() || sx.Dominates(d.at.Block()) {
+				toDel, other = sx, b.Succs[1-k]
+			}
+		}
+		if toDel == nil {
+			continue
+		}
+		if !fi.SysForEdge(b, toDel).ProveLE(lt, 0) || !fi.SysForEdge(b, other).ProveGE(lt, 1) {
+			continue
+		}
+		// the key: the map key of the iteration that produced the entry, or the entry's line
+		kt := d.key
+		okKey := false
+		if entryT.K == an.KExt && entryT.S == "2" && kt.K == an.KExt && kt.S == "1" && kt.A[0].Key() == entryT.A[0].Key() {
+			okKey = true
+		}
+		if kt.K == an.KLoad && len(kt.A) == 1 && kt.A[0].K == an.KFA && kt.A[0].S == "line" && kt.A[0].A[0].Key() == entryT.Key() {
+			okKey = true
+		}
+		if okKey {
+			return true
+		}
+	}
+	return false
 }
 
 func feeds(v ssa.Value, phi *ssa.Phi, depth int) bool {
